@@ -793,9 +793,10 @@ def report(ctx, verdict, case, flt, columns, results, source: str) -> None:
             why = str(m_)
         except sqlref.Unjudged:
             why = ""
-        if why.startswith("between needs (lo, hi), not a"):
+        text = why.endswith(("not a str", "not a bytes", "not a bytearray"))
+        if why.startswith("between needs (lo, hi), not a") and text:
             sub = "between-text-unpacked"
-        elif why.startswith("in / not_in need a list of values, not a"):
+        elif why.startswith("in / not_in need a list of values, not a") and text:
             sub = "text-value-set-iterated"
         elif why.endswith("with the flag False"):
             sub = "null-test-flag-false"
